@@ -36,7 +36,7 @@ COMPONENTS = {'real': ['bespokeasm (whole package) through the CLI entry point',
               'model': ['props/c08.py:CondModel (reference model of conditional selection)']}
 
 PDIR = '/sim/p'
-SYMS = ['SA', 'SB', 'SC', 'SD', 'S_E']
+SYMS = ['SA', 'SB', 'fast', 'idx', 'S_E', 'legacy']     # lower-case names too: nothing in the statement depends on case
 CONSTS = ['KA', 'KB', 'KC']
 LABELS = ['la', 'lb', 'lc']
 ZONES = ['Z1', 'Z2', 'Z3']
@@ -361,6 +361,11 @@ def world_for(case, lines):
         sp = case.get('cli_spacing', 0)
         eq = ['=', ' = ', ' =', '= '][(sp + i) % 4] if sp else '='
         argv += ['-D', (' ' if sp == 2 else '') + (n if v is None else f'{n}{eq}{v}')]
+    g = case.get('glue', 0)
+    if g:
+        # comments on any line, with and without a blank before the ';' (a directive is a directive either way)
+        tails = ['', '', ' ; c', ';c', '\t;endif', ';#else']
+        lines = [ln + tails[(g * 7 + j * (1 + g % 5)) % len(tails)] if ';' not in ln else ln for j, ln in enumerate(lines)]
     return {'files': {f'{PDIR}/isa.yaml': gen.isa_text(isa_for(case['pre_symbols']), 'yaml'),
                       f'{PDIR}/main.asm': ('\r\n' if case.get('crlf') else '\n').join(lines) + ('\r\n' if case.get('crlf') else '\n')},
             'argv': argv, 'cwd': PDIR, 'env': {'HOME': '/sim/home'}, 'step_budget': 3_000_000}
@@ -479,6 +484,11 @@ def simplify(case):
             c = copy.deepcopy(case)
             del c[key][n]
             yield c
+    for key in ('glue', 'crlf', 'verbosity', 'cli_spacing'):
+        if case.get(key):
+            c = copy.deepcopy(case)
+            c[key] = 0
+            yield c
 
 
 # -----------------------------------------------------------------------------------------------
@@ -525,12 +535,14 @@ def make_machine(stats, box):
             self.marker = 0
 
         @initialize(pre=st.dictionaries(st.sampled_from(SYMS[:3]), st.one_of(st.none(), small.map(str)), max_size=2),
-                    cli=st.dictionaries(st.sampled_from(SYMS[2:]), st.one_of(st.none(), small.map(str)), max_size=2))
-        def init(self, pre, cli):
+                    cli=st.dictionaries(st.sampled_from(SYMS[2:]), st.one_of(st.none(), small.map(str)), max_size=2),
+                    glue=st.sampled_from([0, 0, 1, 2, 3, 4, 5]))
+        def init(self, pre, cli, glue):
             cli = {k: v for k, v in cli.items() if k not in pre}
             self.case['pre_symbols'] = dict(pre)
             self.case['cli_symbols'] = dict(cli)
             self.case['crlf'] = (len(pre) + len(cli)) % 3 == 2
+            self.case['glue'] = glue
             self.case['cli_spacing'] = (len(pre) * 2 + len(cli)) % 3       # blanks around '=' / before the name in -D
             self.case['verbosity'] = [0, 0, 1, 2, 3][(len(pre) + 3 * len(cli) + sum(map(len, pre))) % 5]         # some histories are stored with CR LF line ends
             self.model = CondModel(dict(pre), dict(cli))
@@ -648,6 +660,28 @@ def make_machine(stats, box):
             self.marker_()
             self.do({'op': 'endif'})
             self.do({'op': 'sym_use', 'name': a})
+
+        @rule(a=sym, b=sym, va=st.integers(0, 1), vb=st.integers(0, 1))
+        def idiom_feature_flags(self, a, b, va, vb):
+            """#define A 0|1 / #define B 0|1 / #if A / X / #elif B / Y / #else / Z / #endif : flags tested by bare name"""
+            m = self.model
+            if m is None or a == b or len(m.frames) >= 3:
+                return
+            if a not in m.symbols:
+                self.do({'op': 'define', 'name': a, 'value': va})
+            if b not in m.symbols:
+                self.do({'op': 'define', 'name': b, 'value': vb})
+            n = len(self.case['ops'])
+            self.do({'op': 'if', 'cond': {'form': 'bare', 'terms': [a]}})
+            if len(self.case['ops']) == n:
+                return            # A does not expand to a number here: not a flag
+            self.marker_()
+            self.do({'op': 'elif', 'cond': {'form': 'bare', 'terms': [b]}})
+            self.marker_()
+            self.do({'op': 'else'})
+            self.marker_()
+            self.do({'op': 'endif'})
+            self.marker_()
 
         @rule(word=st.sampled_from(['#unmute', '#emit']), which=st.sampled_from(['unmute', 'mute', 'both']),
               opener=st.sampled_from(['if0', 'ifdef', 'else']))
